@@ -293,6 +293,7 @@ Property make() {
   p.rule = "plan = 1-3 variables (5 kinds, subtractAppliedForce on), 2-4 biases out of 12 templates (1-2 variables each; 35% with timeStepFactor 2-4), 36-60 steps in 1-4 run segments with biases switched off/on "
            "through the script interface between segments, same-step or lagged total forces; references = each bias alone, and factor-1 twins of stateless factor-n biases; "
            "non-trivial = at least one step compared; distinct = hash of (templates with factors, segmentation and switches)";
+  p.rule += " Later additions: the live module may reload its own state between segments; the activity oracle reads the run with all biases.";
   p.assumptions = {"kinematic positions: a bias cannot reach another through the atoms; lagged total forces contain Colvars' own forces of the previous step and every variable has subtractAppliedForce on (the documented coupling for ABF next to other biases)",
                    "sums are compared at rtol 1e-10 of the largest term (different summation order), zero contributions and the factor n exactly (1e-12)",
                    "ABF only on one variable and without timeStepFactor; the energy of 'abf applyBias off' is not required to be zero (it reports its PMF estimate)"};
